@@ -19,7 +19,7 @@ def run(tier, seed, only=None):
         for a, b in pairs[:12]:
             cfgs.append(req.Cfg("skip:%s+%s" % (a, b), flags=["-j4"], env={"SOUFFLE_VERIF_SKIP_RAM": a + "," + b}))
         cfgs.append(req.Cfg("skip:all", env={"SOUFFLE_VERIF_SKIP_RAM": ",".join(names)}))
-    jobs = [(c, cfgs) for c in corpus.corpus(tier, extra=("opt", "index"))]
+    jobs = [(c, cfgs) for c in corpus.corpus(tier, extra=("opt", "index") + (("systematic",) if tier == "thorough" else ()))]
     return rcheck.run_jobs(PID, tier, jobs, only=only, extra_cov={"ram_transformers": names},
                            what="With the SOUFFLE_VERIF hook each RAM transformer of MainDriver's pipeline is skipped singly (pairs in the "
                                 "thorough tier); the resulting transformed RAM, the untransformed RAM and the fully optimised RAM are each "
